@@ -126,6 +126,9 @@ func deliverPrefix(te *model.TypeEntry, preset interface{}, evs []simkit.Ev, k i
 		}
 		a0 := measure()
 		for i := 0; i < k; i++ {
+			if i&8191 == 8191 {
+				x.Alive()
+			}
 			x.Clock++
 			r.delivered = i + 1
 			if r.err = simkit.Emit(u, evs[i], byRef); r.err != nil {
@@ -458,6 +461,7 @@ func (Engine) Run(c *simkit.Choices, x *simkit.Ctx) *simkit.Violation {
 	}
 
 	for _, k := range ks {
+		x.Alive()
 		stream := append([]simkit.Ev{}, evs...)
 		sc.K = k
 		sc.Announced = nil
